@@ -13,7 +13,7 @@ namespace Deepali.Drv
 open Deepali Deepali.Proto
 
 /-- `-` → none, `e` → "", `88,89,90` → "XYZ" -/
-def optStr : Reader (Option (List Char)) := do
+private def optStr : Reader (Option (List Char)) := do
   let t ← tok
   if t = "-" then pure none
   else if t = "e" then pure (some [])
@@ -26,88 +26,88 @@ def optStr : Reader (Option (List Char)) := do
       | none => throw s!"bad-op:str:{t}"
     pure (some out.toList)
 
-def fmtStr (s : List Char) : String :=
+private def fmtStr (s : List Char) : String :=
   if s.isEmpty then "e" else ",".intercalate (s.map (fun c => toString c.toNat))
 
-def liftE {β} (e : Except String β) : Reader β :=
+private def liftE {β} (e : Except String β) : Reader β :=
   match e with
   | .ok v => pure v
   | .error m => throw m
 
-def fmtList (xs : List Rat) : String := " ".intercalate (xs.map fmtRat)
-def fmtShape (s : List Nat) : String :=
+private def fmtList (xs : List Rat) : String := " ".intercalate (xs.map fmtRat)
+private def fmtShape (s : List Nat) : String :=
   " ".intercalate (toString s.length :: s.map toString)
 
 /-! ### euler.* -/
 
-def eulerOrder (fixed : Bool) : Reader String := do
+private def eulerOrder : Reader String := do
   let ndim ← nat
   let arg ← optStr
-  let r ← liftE (if fixed then eulerRotationOrderFixed arg ndim else eulerRotationOrder arg ndim)
+  let r ← liftE (eulerRotationOrder arg ndim)
   pure s!"ok {fmtStr r}"
 
-def eulerDimH : Reader String := do
+private def eulerDimH : Reader String := do
   let n ← nat
   let d ← liftE (eulerDim n)
   pure (toString d)
 
-def eulerMatrix2 : Reader String := do
+private def eulerMatrix2 : Reader String := do
   let hg ← bool
   let c ← rat
   let s ← rat
   pure (fmtH (asRotationH hg (eulerRotationMatrix2 c s)))
 
-/-- `euler.matrix3 order leadNdim homogeneous invert c0 c1 c2 s0 s1 s2` -/
-def eulerMatrix3 : Reader String := do
+/-- `euler.matrix3 order homogeneous invert c0 c1 c2 s0 s1 s2` -/
+private def eulerMatrix3 : Reader String := do
   let arg ← optStr
-  let lead ← nat
   let hg ← bool
   let inv ← bool
   let c ← vec 3
   let s ← vec 3
   let order ← liftE (eulerRotationOrder arg 3)
-  let m ← liftE (eulerRotationMatrix3 order lead hg c s)
+  let m ← liftE (eulerRotationMatrix3 order c s)
   pure (fmtH (asRotationH hg (invertRotation inv m).memo))
 
 /-- `euler.angles3 order m(9) tol` → `y0 x0 a1 y2 x2` -/
-def eulerAngles3 : Reader String := do
+private def eulerAngles3 : Reader String := do
   let arg ← optStr
   let m ← mat 3
   let tol ← rat
   let order ← liftE (eulerRotationOrder arg 3)
-  if !detIsOne (det3 m) tol then throw "err:value"
+  if !affineDetIsOne (affineDet3 m) tol then throw "err:value"
   let a ← liftE (eulerRotationAngles3 order m)
   pure (fmtList [a.a0.1, a.a0.2, a.a1, a.a2.1, a.a2.2])
 
-def eulerAngles2 : Reader String := do
+private def eulerAngles2 : Reader String := do
   let m ← mat 2
   let tol ← rat
-  if !detIsOne (det2 m) tol then throw "err:value"
-  pure (fmtRat (eulerRotationAngles2 m))
+  if !affineDetIsOne (affineDet2 m) tol then throw "err:value"
+  let a := eulerRotationAngles2 m
+  pure (fmtList [a.1, a.2])
 
 /-- `euler.scaling d homogeneous invert s…` (invert: `1 / scales` is done by the caller) -/
-def eulerScaling : Reader String := do
+private def eulerScaling : Reader String := do
   let d ← nat
   let hg ← bool
   let s ← vec d
   pure (fmtH (asRotationH hg (scalingTransform s)))
 
 /-- `euler.shear nAngles homogeneous t…` -/
-def eulerShear : Reader String := do
+private def eulerShear : Reader String := do
   let n ← nat
   let hg ← bool
   let t := (← listOf n rat).toArray
   let d ← liftE (shearDim n)
   pure (fmtH (asRotationH hg (shearMatrix (d := d) (fun k => t[k]!))))
 
-def eulerTranslation : Reader String := do
+private def eulerTranslation : Reader String := do
   let d ← nat
   let hg ← bool
   let t ← vec d
   pure (fmtH (translationH t hg))
 
 /-- `euler.param kind x pi` — polynomial part of the parameter getters/setters. -/
-def eulerParam : Reader String := do
+private def eulerParam : Reader String := do
   let k ← tok
   let x ← rat
   let pi ← rat
@@ -122,35 +122,35 @@ def eulerParam : Reader String := do
 
 /-! ### quat.* -/
 
-def fmtM3 (m : Mat 3 Rat) : String := fmtMat m.memo
+private def fmtM3 (m : Mat 3 Rat) : String := fmtMat m.memo
 
-def quatNormalize : Reader String := do
+private def quatNormalize : Reader String := do
   let q ← vec 4
   let n ← rat
   let eps ← rat
   pure (fmtVec (normalizeQuaternion q n eps))
 
-def quatToMatrix : Reader String := do
+private def quatToMatrix : Reader String := do
   let q ← vec 4
   let n ← rat
   let eps ← rat
   let inv ← bool
   pure (fmtM3 (invertRotation inv (quaternionToRotationMatrix q n eps)))
 
-def quatFromMatrix : Reader String := do
+private def quatFromMatrix : Reader String := do
   let m ← mat 3
   let r ← vec 4
   let tiny ← rat
   pure (fmtVec (rotationMatrixToQuaternion m r tiny))
 
-def quatFromAngleAxis : Reader String := do
+private def quatFromAngleAxis : Reader String := do
   let a ← vec 3
   let theta ← rat
   let sh ← rat
   let ch ← rat
   pure (fmtVec (angleAxisToQuaternion a theta sh ch))
 
-def quatAAToMatrix : Reader String := do
+private def quatAAToMatrix : Reader String := do
   let a ← vec 3
   let theta ← rat
   let c ← rat
@@ -159,14 +159,14 @@ def quatAAToMatrix : Reader String := do
   let eps2 ← rat
   pure (fmtM3 (angleAxisToRotationMatrix a theta c s eps eps2))
 
-def quatToAngleAxis : Reader String := do
+private def quatToAngleAxis : Reader String := do
   let q ← vec 4
   let st ← rat
   let an ← rat
   let ap ← rat
   pure (fmtVec (quaternionToAngleAxis q st an ap))
 
-def quatLogToExp : Reader String := do
+private def quatLogToExp : Reader String := do
   let v ← vec 3
   let n ← rat
   let sn ← rat
@@ -174,7 +174,7 @@ def quatLogToExp : Reader String := do
   let eps ← rat
   pure (fmtVec (quaternionLogToExp v n sn cn eps))
 
-def quatExpToLog : Reader String := do
+private def quatExpToLog : Reader String := do
   let q ← vec 4
   let n ← rat
   let ac ← rat
@@ -183,18 +183,18 @@ def quatExpToLog : Reader String := do
 
 /-! ### hbc.* -/
 
-def shape : Reader (List Nat) := do
+private def shape : Reader (List Nat) := do
   let k ← nat
   listOf k nat
 
 /-- tensor: `ndim dims… values…` -/
-def tensor : Reader (List Nat × Array Rat) := do
+private def tensor : Reader (List Nat × Array Rat) := do
   let s ← shape
-  let v ← listOf (numel s) rat
+  let v ← listOf (hbcNumel s) rat
   pure (s, v.toArray)
 
 /-- element `i` of a classified tensor as an operand form -/
-def elemOf (d : Nat) (kind : HKind) (data : Array Rat) (i : Nat) : H d Rat :=
+private def elemOf (d : Nat) (kind : HKind) (data : Array Rat) (i : Nat) : H d Rat :=
   match kind with
   | .translation => .trans (fun r => data[i * d + r.val]!)
   | .affine => .aff (fun r c => data[i * d * d + r.val * d + c.val]!)
@@ -203,43 +203,43 @@ def elemOf (d : Nat) (kind : HKind) (data : Array Rat) (i : Nat) : H d Rat :=
            (fun r => data[i * d * (d + 1) + r.val * (d + 1) + d]!)
 
 /-- read one operand (shape-driven classification, linalg.py:as_homogeneous_tensor). -/
-def operand (d : Nat) : Reader (HB d Rat) := do
+private def operand (d : Nat) : Reader (HB d Rat) := do
   let (s, data) ← tensor
   let (lead, d', kind) ← liftE (classifyShape s)
   if d' ≠ d then throw "err:value"
   pure ⟨lead, kind, elemOf d kind data⟩
 
-def elemValues {d} : H d Rat → List Rat
+private def elemValues {d} : H d Rat → List Rat
   | .trans t => (List.finRange d).map t
   | .aff A => (List.finRange d).flatMap (fun r => (List.finRange d).map (A r))
   | .hom A t => (List.finRange d).flatMap (fun r => (List.finRange d).map (A r) ++ [t r])
 
-def kindCols (d : Nat) : HKind → Nat
+private def kindCols (d : Nat) : HKind → Nat
   | .translation => 1
   | .affine => d
   | .homogeneous => d + 1
 
 /-- print a batch as the tensor deepali returns: `ndim dims… values…`. -/
-def fmtHB {d} (b : HB d Rat) : String :=
+private def fmtHB {d} (b : HB d Rat) : String :=
   let s := b.lead ++ [d, kindCols d b.kind]
-  let vals := (List.range (numel b.lead)).flatMap (fun i => elemValues (b.elem i))
+  let vals := (List.range (hbcNumel b.lead)).flatMap (fun i => elemValues (b.elem i))
   s!"{fmtShape s} {fmtList vals}"
 
-def hbcClassify : Reader String := do
+private def hbcClassify : Reader String := do
   let s ← shape
   let (lead, d, kind) ← liftE (classifyShape s)
   let k := match kind with
     | .translation => "translation" | .affine => "affine" | .homogeneous => "homogeneous"
   pure s!"{fmtShape lead} {d} {k}"
 
-def hbcLeading : Reader String := do
+private def hbcLeading : Reader String := do
   let la ← shape
   let lb ← shape
   let l ← liftE (bcLeading la lb)
   pure (fmtShape l)
 
 /-- `hbc.matmul d n operand…` -/
-def hbcMatmul : Reader String := do
+private def hbcMatmul : Reader String := do
   let d ← nat
   let n ← nat
   if n = 0 then throw "err:value"
@@ -250,21 +250,20 @@ def hbcMatmul : Reader String := do
     acc ← liftE (acc.matmul b)
   pure (fmtHB acc)
 
-def hbcHmm : Reader String := do
+private def hbcHmm : Reader String := do
   let d ← nat
   let a ← operand d
   let b ← operand d
   let c ← liftE (a.hmm b)
   pure (fmtHB c)
 
-def hbcAsMatrix : Reader String := do
+private def hbcAsMatrix : Reader String := do
   let d ← nat
   let a ← operand d
-  let c ← liftE a.asMatrix
-  pure (fmtHB c)
+  pure (fmtHB a.asMatrix)
 
 /-- `hbc.transform d transform-tensor vectors points-tensor` -/
-def hbcTransform : Reader String := do
+private def hbcTransform : Reader String := do
   let d ← nat
   let (ts, tdata) ← tensor
   let vectors ← bool
@@ -275,11 +274,11 @@ def hbcTransform : Reader String := do
   let elem := elemOf d kind tdata
   let pts : Nat → Vec d Rat := fun k i => pdata[k * d + i.val]!
   let (out, rows) ← liftE (homogeneousTransformB n elem vectors ps pts)
-  let nrows := numel out / d
+  let nrows := hbcNumel out / d
   let vals := (List.range nrows).flatMap (fun k => (List.finRange d).map (rows k))
   pure s!"{fmtShape out} {fmtList vals}"
 
-def hbcTransformShape : Reader String := do
+private def hbcTransformShape : Reader String := do
   let ts ← shape
   let ps ← shape
   let (n, d, _) ← liftE (transformShape ts)
@@ -287,7 +286,7 @@ def hbcTransformShape : Reader String := do
   pure (fmtShape out)
 
 def affineHandlers : List (String × Reader String) :=
-  [ ("euler.order", eulerOrder false), ("euler.order_fixed", eulerOrder true), ("euler.dim", eulerDimH),
+  [ ("euler.order", eulerOrder), ("euler.dim", eulerDimH),
     ("euler.matrix2", eulerMatrix2), ("euler.matrix3", eulerMatrix3),
     ("euler.angles3", eulerAngles3), ("euler.angles2", eulerAngles2),
     ("euler.scaling", eulerScaling), ("euler.shear", eulerShear), ("euler.translation", eulerTranslation),
